@@ -148,8 +148,9 @@ def formulas(ctx):
             ex = posv[0][2].single_atom()
             pos_name = ex[2][1:] if ex is not None and ex[0] == "loopvar" else None
             lp = [e for e in tc.of("local") if e.name == pos_name]
-            ok = any(e.value == const(0) for e in lp) and any(e.aug is not None and e.aug == ("Add", const(1)) for e in lp)
-            ctx.ob("AGREE", "ADWIN._compress_buckets", "row position counts from the head (2^0 elements per bucket)", ok, "")
+            if ctx.anchor("ADWIN._compress_buckets", "the row position is a variable carried by the traversal loop", pos_name is not None, q.short(posv[0][2], 60)):
+                ok = any(e.value == const(0) for e in lp) and any(e.aug is not None and e.aug == ("Add", const(1)) for e in lp)
+                ctx.ob("AGREE", "ADWIN._compress_buckets", "row position counts from the head (2^0 elements per bucket)", ok, "")
             ctx.ob("ORD", "ADWIN._compress_buckets", "buckets are read before they are removed", ab[0].seq < rb[0].seq, "", ab[0])
     # removal of the oldest bucket
     trm = ctx.trace("ADWIN", "_remove_last")
@@ -256,7 +257,9 @@ def scan(ctx):
         ok = inc is not None and inc[0] == "pow" and inc[1] == const(2) and (inc[2].single_atom() or ("",))[0] == "loopvar"
         if ok:
             pos_name = inc[2].single_atom()[2][1:]
-        ctx.ob("AGREE", "ADWIN._shrink_window", "scan uses bucket size 2^row", ok, "")
+        is_pow2 = inc is not None and inc[0] == "pow" and inc[1] == const(2)
+        if ctx.anchor("ADWIN._shrink_window", "the scan's row position is a variable carried by the scan loop", ok or not is_pow2, ""):
+            ctx.ob("AGREE", "ADWIN._shrink_window", "scan uses bucket size 2^row", ok, "")
     lp = [e for e in tr.of("local") if e.name == pos_name and q.stack_has(e, "ADWIN._shrink_window")]
     size1 = atom(("getattr", A("_bucket_row_list"), "size")) - const(1)
     ok = any(e.aug is None and T.mentions(e.value, lambda a: a[0] == "getattr" and a[2] == "size") and
@@ -302,8 +305,13 @@ def bounded(ctx):
     ctx.ob("FRM", "_BucketRow.add_bucket", "bucket_count grows by one", ta.final.attrs.get("bucket_count") is not None and T.same(ta.final.attrs["bucket_count"], A("bucket_count") + const(1)), "")
     # compression trigger equals the capacity
     tc = ctx.trace("ADWIN", "_compress_buckets")
-    trig = [e for e in tc.of("test") if T.mentions(e.cond, lambda a: a[0] == "getattr" and a[2] == "bucket_count") and q.is_cmp(e.cond) and q.is_cmp(e.cond)[1] in ("==", "!=")]
-    ok = len(trig) >= 1 and all(T.same(_rhs_eq(e.cond, "bucket_count"), A("max_buckets") + const(1)) for e in trig)
+    # the (in)equality tests on a row's bucket_count, also when they are one operand of a compound condition
+    trig = []
+    for e in tc.of("test"):
+        for a_ in T.walk(e.cond):
+            if a_[0] == "cmp" and a_[1] in ("==", "!=") and T.mentions(atom(a_), lambda z: z[0] == "getattr" and z[2] == "bucket_count") and atom(a_) not in trig:
+                trig.append(atom(a_))
+    ok = len(trig) >= 1 and all(T.same(_rhs_eq(t_, "bucket_count"), A("max_buckets") + const(1)) for t_ in trig)
     ctx.ob("AGREE", "ADWIN._compress_buckets", "a row is compressed exactly when it holds max_buckets + 1 buckets (= capacity)", ok,
            "capacity expression and trigger expression must agree, otherwise add_bucket can write past the arrays")
     brk = [e for e in tc.of("test") if q.is_cmp(e.cond) and T.mentions(e.cond, lambda a: a[0] == "getattr" and a[2] == "bucket_count") and q.is_cmp(e.cond)[1] in (">", ">=")]
